@@ -162,6 +162,8 @@ pub struct ClientNode {
     pub c2s: Vec<VecDeque<Msg>>,
     pub frames: u64,
     pub panicked: bool,
+    /// Frame counter when the client end was closed (a reconnect needs at least one frame after it).
+    pub closed_at: Option<u64>,
 }
 
 #[derive(Clone, Debug)]
@@ -306,6 +308,8 @@ pub struct Sim {
     pub verbose: bool,
     /// Directed scenarios of known findings run with the cause predicates switched off.
     pub no_taint: bool,
+    pub pending_emits: Vec<(SEv, Mode, Option<u8>)>,
+    pub stopped_at: Option<u64>,
 }
 
 pub fn silent_panics() {
@@ -340,6 +344,7 @@ impl Sim {
                 c2s: (0..chans.n_client()).map(|_| VecDeque::new()).collect(),
                 frames: 0,
                 panicked: false,
+                closed_at: None,
             });
         }
         Sim {
@@ -380,6 +385,8 @@ impl Sim {
             trace_log: vec![],
             verbose: false,
             no_taint: false,
+            pending_emits: vec![],
+            stopped_at: None,
         }
     }
 
@@ -514,7 +521,9 @@ impl Sim {
             }
             Step::SetVis { client, slot, visible } => self.op_set_vis(*client as usize, *slot, *visible),
             Step::MapPreSpawn { client, slot, cslot } => self.op_map_prespawn(*client as usize, *slot, *cslot),
-            Step::Emit { ev, mode, target } => self.op_emit(*ev, *mode, *target),
+            // Written into the world at the start of the next server frame (the "Update" of that
+            // frame), after the connection changes that precede the frame (its "PreUpdate").
+            Step::Emit { ev, mode, target } => self.pending_emits.push((*ev, *mode, *target)),
             Step::TickJump { k } => {
                 if self.running {
                     self.server.world_mut().resource_mut::<ServerTick>().increment_by(*k);
@@ -575,6 +584,7 @@ impl Sim {
                 if self.running {
                     self.server.world_mut().resource_mut::<RepliconServer>().set_running(false);
                     self.running = false;
+                    self.stopped_at = Some(self.server_frames);
                     self.stats.fault("server_stop");
                     self.last_fault = 5;
                     self.fault_fired = true;
@@ -589,7 +599,8 @@ impl Sim {
                 }
             }
             Step::ServerStart => {
-                if !self.running {
+                let frame_between = self.stopped_at.map(|f| self.server_frames > f).unwrap_or(true);
+                if !self.running && frame_between {
                     self.server.world_mut().resource_mut::<RepliconServer>().set_running(true);
                     self.running = true;
                     if self.ever_started {
@@ -794,6 +805,12 @@ impl Sim {
                 return;
             }
         }
+        // The property quantifies over reconnects after at least one frame.
+        if let Some(f) = self.clients[c].closed_at {
+            if self.clients[c].frames <= f {
+                return;
+            }
+        }
         let reconnect = self.clients[c].sess.is_some();
         // As a game would: remove what the previous session left behind.
         if reconnect {
@@ -846,6 +863,7 @@ impl Sim {
         let Some(s) = self.clients[c].sess.as_mut() else { return };
         if s.client_up {
             s.client_up = false;
+            self.clients[c].closed_at = Some(self.clients[c].frames);
             self.clients[c]
                 .app
                 .world_mut()
@@ -1068,6 +1086,9 @@ impl Sim {
     pub fn server_frame(&mut self, tick: bool, dt_ms: u32) {
         if self.server_panicked {
             return;
+        }
+        for (ev, mode, target) in std::mem::take(&mut self.pending_emits) {
+            self.op_emit(ev, mode, target);
         }
         if self.running && self.prof.app.tick_policy == 0 && tick {
             self.server.world_mut().resource_mut::<ServerTick>().increment();
